@@ -7,8 +7,11 @@ mkdir -p "$V/build/bin" "$V/build/lib" "$V/evidence" "$V/replays"
 cp /repo/go.sum "$V/zmc/go.sum"
 # overlays (also patches the third-party copies and creates the empty libjemalloc.a)
 python3 "$V/tools/mkoverlay.py" raft > /dev/null
+python3 "$V/tools/mkoverlay.py" vclock --vclock > /dev/null
 # warm the build cache: one binary per engine
 for b in $(ls "$V/zmc/cmd"); do
-  ( cd "$V/zmc" && go build -tags verif -overlay "$V/build/overlay-raft.json" -o "$V/build/bin/$b" ./cmd/$b ) || { echo "setup: build of $b failed"; exit 1; }
+  ov=raft
+  case $b in storevc) ov=vclock ;; esac
+  ( cd "$V/zmc" && go build -tags verif -overlay "$V/build/overlay-$ov.json" -o "$V/build/bin/$b" ./cmd/$b ) || { echo "setup: build of $b failed"; exit 1; }
 done
 echo setup ok
